@@ -331,6 +331,58 @@ fn setup_loggers() {
     proxy_agent_shared::logger::logger_manager::set_loggers(loggers, crate::common::logger::AGENT_LOGGER_KEY.to_string());
 }
 
+/// Start-up mode (`"mode":"attach"`): the REAL start-up of the redirector, to be watched from outside with strace.
+/// `{"mode":"attach","obj":path,"cgroup":dir,"local_port":n,"direct_attempts":k}`:
+///   1. the REAL `Redirector::new(port, &SharedState).start()` -- the whole retry loop of start_impl / start_internal:
+///      every attempt loads a fresh object (from the configured path: the check puts the tree's object next to the
+///      executable), fills the maps and calls `attach_bpf_prog`; then `redirector::close` (drops the object);
+///   2. `direct_attempts` times: `BpfObject::from_ebpf_file(obj)` + the REAL `Redirector::attach_bpf_prog(&mut bpf)`
+///      on the untouched (empty policy) object, which is dropped at once.
+/// Safety: the check runs this in a private mount namespace in which the only cgroup2 directory is a private, EMPTY
+/// cgroup; the driver refuses to go on unless the agent's own path resolution (`get_cgroup2_mount_path`, and the
+/// configured fallback) names exactly that directory.  Links die with the object / the process; nothing is pinned.
+fn attach_main(script: &Value) -> i32 {
+    use crate::shared_state::SharedState;
+    let want = PathBuf::from(script["cgroup"].as_str().expect("cgroup"));
+    let got = proxy_agent_shared::linux::get_cgroup2_mount_path();
+    let fallback = crate::common::config::get_cgroup_root();
+    if got.as_ref().ok() != Some(&want) || fallback != want {
+        emit(json!({"e": "load_error", "run": 0, "what": format!(
+            "refusing to attach: the agent would pick {:?} (fallback {:?}), the private cgroup is {:?}", got, fallback, want)}));
+        flush();
+        return 3;
+    }
+    let rt = tokio::runtime::Builder::new_multi_thread().worker_threads(2).enable_all().build().unwrap();
+    let local_port = script["local_port"].as_u64().unwrap_or(3080) as u16;
+    let obj = PathBuf::from(script["obj"].as_str().expect("obj"));
+    rt.block_on(async {
+        let shared = SharedState::start_all();
+        let redirector = redirector::Redirector::new(local_port, &shared);
+        emit(json!({"e": "start_begin"}));
+        redirector.start().await;
+        let loaded = matches!(shared.get_redirector_shared_state().get_bpf_object().await, Ok(Some(_)));
+        emit(json!({"e": "start_end", "object_installed": loaded}));
+        redirector::close(shared.get_redirector_shared_state(), shared.get_agent_status_shared_state()).await;
+        emit(json!({"e": "closed"}));
+        for k in 0..script["direct_attempts"].as_u64().unwrap_or(0) {
+            match BpfObject::from_ebpf_file(&obj) {
+                Ok(mut bpf) => {
+                    let r = redirector.attach_bpf_prog(&mut bpf);
+                    drop(bpf);
+                    emit(json!({"e": "direct_attempt", "k": k + 1, "ok": r.is_ok(),
+                        "err": r.err().map(|e| e.to_string()).unwrap_or_default()}));
+                }
+                Err(e) => {
+                    emit(json!({"e": "load_error", "run": 0, "what": format!("BpfObject::from_ebpf_file: {}", e)}));
+                }
+            }
+        }
+    });
+    emit(json!({"e": "done"}));
+    flush();
+    0
+}
+
 pub fn main() -> i32 {
     let script: Value = serde_json::from_str(&std::fs::read_to_string(env("VERIF_SCRIPT")).expect("script")).expect("script json");
     SINK.lock().unwrap().out = Some(std::io::BufWriter::new(std::fs::File::create(env("VERIF_OUT")).expect("VERIF_OUT")));
@@ -338,6 +390,9 @@ pub fn main() -> i32 {
     assert!(!verif::audit::enabled(), "the audit stand-in must stay disabled in this driver");
     if script["loggers"].as_bool().unwrap_or(true) {
         setup_loggers();
+    }
+    if script["mode"] == "attach" {
+        return attach_main(&script);
     }
     let rt = tokio::runtime::Builder::new_multi_thread().worker_threads(4).enable_all().build().unwrap();
     let obj = PathBuf::from(script["obj"].as_str().expect("obj"));
